@@ -98,7 +98,7 @@ impl Prop for Mutants {
         160
     }
     fn cases(&self, tier: Tier) -> u64 {
-        tier.pick(400, 24_000)
+        tier.pick(1_200, 30_000)
     }
     fn generate(&self, g: &mut Gen) -> MutCase {
         let msg = gen_wmsg(g, &MsgOpts::small());
